@@ -262,7 +262,7 @@ class ArrayProductOperator(Operator):
         self.dimensions = dimensions
 
     def term(self, time="t"):
-        return _array_resolve("*", self.element, time, self.dimensions)
+        return "(" + _array_resolve("*", self.element, time, self.dimensions) + ")"
 
     def clone_with_index(self, index):
         a = ArrayProductOperator(
@@ -283,7 +283,7 @@ class ArraySumOperator(Operator):
         self.dimensions = dimensions
 
     def term(self, time="t"):
-        return _array_resolve("+", self.element, time, self.dimensions)
+        return "(" + _array_resolve("+", self.element, time, self.dimensions) + ")"
 
     def clone_with_index(self, index):
         a = ArraySumOperator(self.element, self.dimensions)
@@ -440,6 +440,10 @@ class BinaryOperator(Operator):
     def term(self, time="t"):
         pass
 
+    def _grouped(self, term):
+        """A compound term is used as a unit by whatever expression it is nested in."""
+        return "(" + term + ")"
+
     def _is_arrayed(self, element):
         return self.arrayed or (isinstance(element, BPTK_Py.sddsl.element.Element) and element._elements.vector_size() > 0) or (isinstance(element, Operator) and element.is_any_subelement_arrayed())
 
@@ -487,6 +491,9 @@ class ComparisonOperator(BinaryOperator):
         super().__init__(element_1, element_2)
 
     def term(self, time="t"):
+        return self._grouped(self._term(time))
+
+    def _term(self, time="t"):
         element_1 = extractTerm(self.element_1, time)
         element_2 = extractTerm(self.element_2, time)
         return str(element_1) + "{}".format(self.sign) + str(element_2)
@@ -524,11 +531,17 @@ class NaryOperator(Operator):
 
 class ModOperator(BinaryOperator):
     def term(self, time="t"):
+        return self._grouped(self._term(time))
+
+    def _term(self, time="t"):
         return self.element_1.term(time) + "%" + self.element_2.term(time)
 
 
 class AdditionOperator(BinaryOperator):
     def term(self, time="t"):
+        return self._grouped(self._term(time))
+
+    def _term(self, time="t"):
         if self.arrayed:
             if self.index == None:  # Can not resolve arrayed equations without index
                 return "0.0"
@@ -590,6 +603,9 @@ class AdditionOperator(BinaryOperator):
 class SubtractionOperator(BinaryOperator):
     #TODO implement for named arrays - float and float - named arrays 
     def term(self, time="t"):
+        return self._grouped(self._term(time))
+
+    def _term(self, time="t"):
         if self.arrayed:
             if self.index == None:  # Can not resolve arrayed equations without index
                 return "0.0"
@@ -650,6 +666,9 @@ class SubtractionOperator(BinaryOperator):
 
 class DivisionOperator(BinaryOperator):
     def term(self, time="t"):
+        return self._grouped(self._term(time))
+
+    def _term(self, time="t"):
         if self.arrayed:
             if self.index == None:  # Can not resolve arrayed equations without index
                 return "0.0"
@@ -709,6 +728,9 @@ class DivisionOperator(BinaryOperator):
 
 class NumericalMultiplicationOperator(BinaryOperator):
     def term(self, time="t"):
+        return self._grouped(self._term(time))
+
+    def _term(self, time="t"):
         if self.arrayed:
             if self.index == None:  # Can not resolve arrayed equations without index
                 return "0.0"
@@ -761,6 +783,9 @@ class NumericalMultiplicationOperator(BinaryOperator):
 
 class MultiplicationOperator(BinaryOperator):
     def term(self, time="t"):
+        return self._grouped(self._term(time))
+
+    def _term(self, time="t"):
         if self.arrayed:
             if self.index == None:  # Can not resolve arrayed equations without index
                 return "0.0"
